@@ -382,6 +382,12 @@ func (c *Ctx) truncatesWholeRecords() {
 			okSub = false
 		}
 		c.verdict(okSub, c.nm(fn)+" | bytes to remove = numHeaders * record size", c.at(in), "numHeaders * headerType.Size()", "the number of bytes cut off is not the product of numHeaders and the record size of the header type", c.at(in))
+		// every new length from zero up is cut to: the file's very first
+		// record is appended and, when its index update fails, taken off
+		// again like any other (a floor of one record would leave it behind
+		// and the store could never be opened again)
+		neg, _ := relGuard("new length < 0", fn, func(v ssa.Value) bool { return ir.Strip(v) == ssa.Value(b) }, constIntIs(0), token.LSS)
+		c.mustFollow(fn, "the new length is computed", []start{afterInstr(c, b)}, isTrunc, "the truncation", neg.cut(), 1)
 		switch {
 		case asked(b.X):
 			c.pass(construct, c.at(in), "the current length is read from the file (Stat / Seek to the end) in this call", c.at(in))
